@@ -222,7 +222,9 @@ func (b *ByteBuffer) Read(dst []byte) (int, error) {
 		return 0, nil
 	}
 
-	if b.ri == 0 {
+	if b.ReadLen() == 0 {
+		// Nothing readable. (Testing b.ri alone misses an empty read area that follows a non-empty save area, in which
+		// case (0, nil) was returned and ReadByte handed out a stale byte.)
 		return 0, io.EOF
 	}
 
